@@ -17,6 +17,7 @@ EXPLANATION = (
     "literally (startswith on the raw name, flag-less regex applied with match()); no ordering comparison on the name column; "
     "what is stored is the URI text printed verbatim from its fields (shared with C19)."
     'Also decided: SqlStorage.__setitem__ writes the given uri on every path; the nsc tool asks yplookup the question its command names. '
+    'Also decided (round 7): SqlStorage.__setitem__ removes the old tags whatever the new tags are. '
     "Not decided: sqlite's own semantics, reopen equality, histories, injected "
     "statement failures."
 )
